@@ -206,6 +206,16 @@ if __name__ == "__main__":
             print(v, k)
         print(len(C), "sites")
         sys.exit(0)
+    if cmd == "one":
+        # mutate.py one FILE SITE focus... : run campaigns of the given focuses against one mutant
+        f, k = sys.argv[2], int(sys.argv[3])
+        dest = f"/tmp/mut_one_{os.getpid()}"
+        d = build(f, k, dest)
+        print(json.dumps(d))
+        for fo in sys.argv[4:]:
+            print(json.dumps(run_campaign(dest, fo, 96, 8, 4000)))
+        shutil.rmtree(dest, ignore_errors=True)
+        sys.exit(0)
     n, seed = int(sys.argv[2]), int(sys.argv[3])
     focuses = sys.argv[4:] or ["C07", "C02"]
     rng = random.Random(seed)
